@@ -188,6 +188,7 @@ type monitor struct {
 	cancel    context.CancelFunc
 	probeMark int
 	seenInCycle map[string]bool
+	memo *MemoSet
 }
 
 type extraListener struct{ log *[]string }
@@ -300,7 +301,7 @@ func (m *monitor) BeginCycle(ctx context.Context, n uint64) {
 		m.tr.Protocol = append(m.tr.Protocol, fmt.Sprintf("BeginCycle(%d) after Complete()", n))
 	}
 	c := &CycleRec{N: n}
-	key := m.live().Dump() + "\n" + MemoDump(m.kb) + fmt.Sprintf("\nfired=%d/%d", m.tr.Fired, m.opts.MaxCycle)
+	key := m.live().Dump() + "\n" + m.memo.Dump() + fmt.Sprintf("\nfired=%d/%d", m.tr.Fired, m.opts.MaxCycle)
 	c.Key = hashKey(key)
 	c.RefAt = map[string]RefRes{}
 	lv := m.live()
@@ -414,7 +415,7 @@ func RunOn(prog *Program, kb *ast.KnowledgeBase, w *ref.World, opts RunOpts, tr 
 	if opts.Removed == nil {
 		opts.Removed = map[string]bool{}
 	}
-	m := &monitor{prog: prog, kb: kb, dc: dc, world: w, tr: tr, opts: &opts, retracted: map[string]bool{}}
+	m := &monitor{prog: prog, kb: kb, dc: dc, world: w, tr: tr, opts: &opts, retracted: map[string]bool{}, memo: NewMemoSet(kb)}
 	eng := &engine.GruleEngine{MaxCycle: opts.MaxCycle, ReturnErrOnFailedRuleEvaluation: opts.ReturnErr}
 	eng.Listeners = append(eng.Listeners, m)
 	for i := 0; i < opts.ExtraListeners; i++ {
